@@ -13,7 +13,7 @@ from urllib.request import url2pathname
 from xml.etree import ElementTree
 
 import pydyf
-from PIL import Image, ImageFile, ImageOps
+from PIL import Image, ImageFile, ImageOps, JpegImagePlugin
 from tinycss2.color4 import parse_color
 
 from . import DEFAULT_OPTIONS
@@ -84,6 +84,11 @@ class RasterImage:
                 options = {'format': 'JPEG', 'optimize': optimize}
                 if self._jpeg_quality is not None:
                     options['quality'] = self._jpeg_quality
+                elif getattr(original_pillow_image, 'quantization', None):
+                    # Keep the quality of the original image
+                    options['qtables'] = original_pillow_image.quantization
+                    options['subsampling'] = JpegImagePlugin.get_sampling(
+                        original_pillow_image)
                 pillow_image.save(image_file, **options)
                 image_data = image_file.getvalue()
                 filename = None
